@@ -383,3 +383,23 @@ func vSigned(v RawType, signed bool) int {
 func vFmtRec(r *DataRecord) string {
 	return fmt.Sprintf("{ch=%d frame=%d pre=%d len=%d}", r.channelIndex, r.trigFrame, r.presamples, len(r.data))
 }
+
+// ---------------------------------------------------------------- flow control for scripted hardware
+//
+// The harnesses shorten the read periods of the Abaco and Lancero readers (hook verifDuration) to
+// run scripts quickly. The readers' 100-entry buffer then represents 0.1-0.5 s instead of 5 s of
+// slack, and on a loaded machine the reader could outrun block processing and trip the code's own
+// "internal buffersChan full" panic. Scripted producers therefore wait (bounded) while the reader's
+// buffer holds more than vFlowWindow entries: the scaled-down system keeps the margin of the real
+// one. A consumer that never catches up only makes the producer slow, never stuck.
+
+const vFlowWindow = 40
+
+func vFlowWait(backlog func() int) {
+	if backlog == nil {
+		return
+	}
+	for i := 0; i < 3000 && backlog() > vFlowWindow; i++ {
+		time.Sleep(time.Millisecond)
+	}
+}
